@@ -19,6 +19,11 @@ def M(id, property, expect, file, old, new, desc=''):
                         file=file, old=old, new=new, desc=desc))
 
 
+def N(id, property, file, old, new, desc=''):
+    """a NEUTRAL edit: behaviour (as far as the property is concerned) is preserved; no obligation may fire"""
+    MUTANTS.append(dict(id='neutral/' + id, property=property, expect=[], neutral=True, file=file, old=old, new=new, desc=desc))
+
+
 # ---------------------------------------------------------------- C01
 M('C01-confirm-before-rollback', 'C01', 'C01.O5', P2P,
   """        // check game consistency and roll back, if necessary
@@ -112,3 +117,522 @@ M('C01-no-requested-cap', 'C01', 'C01.O5', IQ,
 """, "", 'discard not capped by the last requested frame')
 M('C01-event-before-insert', 'C01', 'C01.O6', PROTO,
   "                self.recv_inputs.insert(input_data.frame, input_data);\n", "", 'frame announced but never stored')
+
+# ---------------------------------------------------------------- C02
+M('C02-resim-save-i-gt-1', 'C02', 'C02.O6', P2P,
+  "                if i > 0 {\n                    requests.push(self.sync_layer.save_current_state());",
+  "                if i > 1 {\n                    requests.push(self.sync_layer.save_current_state());", 'second resimulated frame not saved')
+M('C02-sparse-trigger-gt', 'C02', 'C02.O6', P2P,
+  "        if self.sync_layer.current_frame() - last_saved >= self.max_prediction as i32 {",
+  "        if self.sync_layer.current_frame() - last_saved > self.max_prediction as i32 {", 'sparse trigger one frame late')
+M('C02-drop-frame0-save', 'C02', 'C02.O7', P2P,
+  """        if self.sync_layer.current_frame() == 0 && !lockstep {
+            trace!("Saving state of first frame");
+            requests.push(self.sync_layer.save_current_state());
+        }
+""", "", 'frame-0 save dropped')
+M('C02-save-wrong-cell', 'C02', 'C02.O1', SL,
+  "        let cell = self.saved_states.get_cell(self.current_frame);\n        GgrsRequest::SaveGameState {",
+  "        let cell = self.saved_states.get_cell(self.last_confirmed_frame.max(0));\n        GgrsRequest::SaveGameState {", 'save into the wrong cell')
+M('C02-advance-by-two', 'C02', 'C02.O2', SL, "        self.current_frame += 1;\n    }", "        self.current_frame += 2;\n    }", 'counter +2')
+M('C02-load-keeps-counter', 'C02', 'C02.O1', SL, "        self.current_frame = frame_to_load;\n", "", 'load does not rewind the counter')
+M('C02-loop-bound-after-load', 'C02', 'C02.O4', ST if False else SYNCT,
+  "        let start_frame = self.sync_layer.current_frame();\n        let count = start_frame - frame_to;\n\n        // rollback to the first incorrect state\n        requests.push(self.sync_layer.load_frame(frame_to));",
+  "        // rollback to the first incorrect state\n        requests.push(self.sync_layer.load_frame(frame_to));\n        let start_frame = self.sync_layer.current_frame() + self.check_distance as i32;\n        let count = start_frame - frame_to;",
+  'pre-rollback frame captured after the load')
+M('C02-spectator-step-before-fetch', 'C02', 'C02.O8', SPEC,
+  """            let synced_inputs = self.inputs_at_frame(frame_to_grab)?;
+
+            requests.push(GgrsRequest::AdvanceFrame {
+                inputs: synced_inputs,
+            });
+
+            // advance the frame, but only if grabbing the inputs succeeded
+            self.current_frame += 1;""",
+  """            self.current_frame += 1;
+            let synced_inputs = self.inputs_at_frame(frame_to_grab)?;
+
+            requests.push(GgrsRequest::AdvanceFrame {
+                inputs: synced_inputs,
+            });""", 'spectator steps before the fetch succeeded')
+N('C02-synctest-save-after-fetch', ['C02', 'C13'], SYNCT,
+  """        if self.check_distance > 0 {
+            requests.push(self.sync_layer.save_current_state());
+        }
+
+        // get the correct inputs for all players from the sync layer
+        let inputs = self
+            .sync_layer
+            .synchronized_inputs(&self.dummy_connect_status);
+""",
+  """        // get the correct inputs for all players from the sync layer
+        let inputs = self
+            .sync_layer
+            .synchronized_inputs(&self.dummy_connect_status);
+        if self.check_distance > 0 {
+            requests.push(self.sync_layer.save_current_state());
+        }
+""", 'save after the input fetch but still before the step and before the AdvanceFrame request: the request list is unchanged')
+
+# ---------------------------------------------------------------- C03
+M('C03-sync-inputs-le', 'C03', 'C03.O2', SL,
+  "            if con_stat.disconnected && con_stat.last_frame < self.current_frame {",
+  "            if con_stat.disconnected && con_stat.last_frame <= self.current_frame {", 'cut-off one frame early in synchronized_inputs')
+M('C03-confirmed-inputs-le', 'C03', 'C03.O2', SL,
+  "            if con_stat.disconnected && con_stat.last_frame < frame {",
+  "            if con_stat.disconnected && con_stat.last_frame <= frame {", 'cut-off one frame early in confirmed_inputs')
+M('C03-spectator-no-disconnected', 'C03', 'C03.O2', SPEC,
+  "                if self.host_connect_status[handle].disconnected\n                    && self.host_connect_status[handle].last_frame < frame_to_grab",
+  "                if self.host_connect_status[handle].last_frame < frame_to_grab", 'spectator ignores the disconnected flag')
+M('C03-prediction-as-confirmed', 'C03', 'C03.O1', IQ,
+  "        (prediction_to_return.input, InputStatus::Predicted)", "        (prediction_to_return.input, InputStatus::Confirmed)", 'prediction handed out as Confirmed')
+M('C03-drop-last-frame-store', 'C03', 'C03.O4', P2P,
+  "                    self.local_connect_status[player].last_frame = input.frame;\n", "", 'remote last_frame not raised')
+M('C03-predict-from-tail', 'C03', 'C03.O1', IQ,
+  "                    Some(self.inputs[Self::prev_pos(self.head)])\n                };",
+  "                    Some(self.inputs[self.tail])\n                };", 'prediction based on the oldest input')
+M('C03-confirmed-frame-includes-disconnected', 'C03', 'C03.O4', P2P,
+  "            if !con_stat.disconnected {\n                confirmed_frame = std::cmp::min(confirmed_frame, con_stat.last_frame);\n            }",
+  "            confirmed_frame = std::cmp::min(confirmed_frame, con_stat.last_frame);", 'confirmed frame held back by disconnected players')
+
+# ---------------------------------------------------------------- C04
+M('C04-gate-le', 'C04', 'C04.O1', P2P, "        if frames_ahead < self.max_prediction as i32 {", "        if frames_ahead <= self.max_prediction as i32 {", 'one frame too many')
+M('C04-frame0-save-in-lockstep', 'C04', 'C04.O3', P2P,
+  "        if self.sync_layer.current_frame() == 0 && !lockstep {", "        if self.sync_layer.current_frame() == 0 {", 'SaveGameState in lockstep')
+M('C04-lockstep-uses-synchronized-inputs', 'C04', 'C04.O4', P2P,
+  """            let inputs = self
+                .sync_layer
+                .confirmed_inputs(game_frame, &self.local_connect_status)
+                .into_iter()
+                .enumerate()
+                .map(|(handle, pi)| {
+                    debug_assert_eq!(
+                        pi.frame == NULL_FRAME,
+                        self.local_connect_status[handle].disconnected
+                            && self.local_connect_status[handle].last_frame < game_frame,
+                        "confirmed_inputs returned NULL_FRAME for a connected player or \\
+                         a real frame for a disconnected player (handle {handle})"
+                    );
+                    if pi.frame == NULL_FRAME {
+                        (pi.input, InputStatus::Disconnected)
+                    } else {
+                        (pi.input, InputStatus::Confirmed)
+                    }
+                })
+                .collect();""",
+  """            let inputs = self
+                .sync_layer
+                .synchronized_inputs(&self.local_connect_status);""", 'lockstep path may predict')
+M('C04-lockstep-gate-off-by-one', 'C04', 'C04.O2', P2P,
+  "        self.confirmed_frame() >= self.sync_layer.current_frame()\n    }", "        self.confirmed_frame() + 1 >= self.sync_layer.current_frame()\n    }", 'lockstep steps one frame early')
+M('C04-sparse-kept-in-lockstep', 'C04', 'C04.O5', P2P,
+  "        let sparse_saving = if max_prediction == 0 && sparse_saving {", "        let sparse_saving = if max_prediction == 1 && sparse_saving {", 'sparse saving stays on in lockstep')
+
+# ---------------------------------------------------------------- C05
+M('C05-drop-ack-after-decode', 'C05', 'C05.O1', PROTO,
+  "            // send an input ack\n            self.send_input_ack();\n", "", 'no ack after a decoded packet')
+M('C05-drop-ack-no-reference', 'C05', 'C05.O1', PROTO,
+  "            // forward; otherwise a single lost ack could stall the input stream forever.\n            self.send_input_ack();\n", "            // forward; otherwise a single lost ack could stall the input stream forever.\n", 'inverse of the D2 fix')
+M('C05-resend-front-only', 'C05', 'C05.O2', PROTO,
+  "                self.pending_output.iter().map(|gi| &gi.bytes),", "                self.pending_output.iter().take(1).map(|gi| &gi.bytes),", 'only the oldest pending input is resent')
+M('C05-no-timer-resend', 'C05', 'C05.O2', PROTO,
+  """                if self.running_last_input_recv + RUNNING_RETRY_INTERVAL < now {
+                    self.send_pending_output(connect_status);
+                    self.running_last_input_recv = Instant::now();
+                }
+""", "", 'no timer retransmission')
+M('C05-sync-retry-shared-timer', 'C05', 'C05.O4', PROTO,
+  "                if self.last_sync_request_time + SYNC_RETRY_INTERVAL < now {", "                if self.last_send_time + SYNC_RETRY_INTERVAL < now {", '0.12 regression')
+M('C05-no-null-reference', 'C05', 'C05.O5', PROTO,
+  "        recv_inputs.insert(NULL_FRAME, InputBytes::zeroed::<T>(recv_player_num));\n", "", '0.13 regression: first delayed packet rejected')
+M('C05-prune-too-tight', 'C05', 'C05.O6', PROTO,
+  "                .retain(|&k, _| k >= last_recv_frame - 2 * self.max_prediction as i32);", "                .retain(|&k, _| k > last_recv_frame - 2 * self.max_prediction as i32);", 'window 0 drops the acknowledged frame')
+M('C05-pop-unacked', 'C05', 'C05.O3', PROTO,
+  "                if input.frame <= ack_frame {", "                if input.frame <= ack_frame + 1 {", 'pops one unacknowledged input')
+M('C05-sync-reply-no-next-request', 'C05', 'C05.O5', PROTO,
+  "            // send another sync request\n            self.send_sync_request();\n", "", 'handshake waits for the retry timer after every reply')
+
+# ---------------------------------------------------------------- C06
+M('C06-broadcast-beyond-confirmed', 'C06', 'C06.O1', P2P,
+  "        while self.next_spectator_frame <= confirmed_frame {", "        while self.next_spectator_frame <= confirmed_frame + 1 {", 'unconfirmed frame broadcast')
+M('C06-ring-check-swapped', 'C06', 'C06.O3', SPEC,
+  "        if player_inputs[0].frame < frame_to_grab {\n            return Err(GgrsError::PredictionThreshold);",
+  "        if player_inputs[0].frame > frame_to_grab {\n            return Err(GgrsError::PredictionThreshold);", 'ring checks swapped')
+M('C06-ring-too-old-dropped', 'C06', 'C06.O3', SPEC,
+  """        if player_inputs[0].frame > frame_to_grab {
+            return Err(GgrsError::SpectatorTooFarBehind);
+        }
+""", "", 'overwritten slot delivered as if it were the requested frame')
+M('C06-catchup-uncapped', 'C06', 'C06.O4', SPEC,
+  "            self.catchup_speed\n                .min(frames_behind)\n                .min(SPECTATOR_BUFFER_SIZE - 1)", "            self.catchup_speed.min(SPECTATOR_BUFFER_SIZE - 1)", '0.13 regression')
+M('C06-cursor-not-stepped-when-no-running-spectator', 'C06', 'C06.O1', P2P,
+  "            // onto the next frame\n            self.next_spectator_frame += 1;", "            // onto the next frame\n            if input_map.len() == self.num_players {\n                self.next_spectator_frame += 2;\n            }", 'cursor skips frames')
+M('C06-spectator-touches-players', 'C06', 'C06.O5', P2P,
+  "            // onto the next frame\n            self.next_spectator_frame += 1;", "            // onto the next frame\n            self.next_spectator_frame += 1;\n            self.frames_ahead = 0;", 'broadcast writes player state')
+
+# ---------------------------------------------------------------- C07
+M('C07-timeouts-swapped', 'C07', 'C07.O1', PROTO,
+  "                    && self.last_recv_time + self.disconnect_notify_start < now", "                    && self.last_recv_time + self.disconnect_timeout < now", 'notify uses the disconnect timeout')
+M('C07-disconnected-no-test-and-set', 'C07', 'C07.O2', PROTO,
+  "        if self.pending_output.len() > PENDING_OUTPUT_SIZE && !self.disconnect_event_sent {\n            self.event_queue.push_back(Event::Disconnected);\n            self.disconnect_event_sent = true;",
+  "        if self.pending_output.len() > PENDING_OUTPUT_SIZE {\n            self.event_queue.push_back(Event::Disconnected);", 'inverse of the D3 fix')
+M('C07-disconnect-frame-overwrite', ['C07', 'C17'], ['C07.O3', 'C17.O3'], P2P,
+  "                    if self.disconnect_frame == NULL_FRAME || last_frame + 1 < self.disconnect_frame {\n                        self.disconnect_frame = last_frame + 1;\n                    }",
+  "                    self.disconnect_frame = last_frame + 1;", 'inverse of the D7 fix')
+M('C07-resim-from-last-frame-plus-2', 'C07', 'C07.O3', P2P,
+  "                    if self.disconnect_frame == NULL_FRAME || last_frame + 1 < self.disconnect_frame {\n                        self.disconnect_frame = last_frame + 1;",
+  "                    if self.disconnect_frame == NULL_FRAME || last_frame + 2 < self.disconnect_frame {\n                        self.disconnect_frame = last_frame + 2;", 'resimulation starts one frame late')
+M('C07-disconnect-player-wrong-frame', 'C07', 'C07.O4', P2P,
+  "                    let last_frame = self.local_connect_status[player_handle].last_frame;\n                    self.disconnect_player_at_frame(player_handle, last_frame);",
+  "                    let last_frame = self.sync_layer.current_frame();\n                    self.disconnect_player_at_frame(player_handle, last_frame);", 'explicit disconnect cuts at the current frame')
+M('C07-no-endpoint-disconnect', 'C07', 'C07.O4', P2P,
+  "                    self.local_connect_status[handle].disconnected = true;\n                }\n                endpoint.disconnect();\n",
+  "                    self.local_connect_status[handle].disconnected = true;\n                }\n", 'endpoint keeps running after the drop')
+M('C07-late-input-accepted', 'C07', 'C07.O6', P2P,
+  "                if !self.local_connect_status[player].disconnected {\n                    // check if the input comes in the correct sequence",
+  "                if !self.local_connect_status[player].disconnected || input.frame > 0 {\n                    // check if the input comes in the correct sequence", 'inputs after the cut-off accepted')
+
+# ---------------------------------------------------------------- C08
+M('C08-drop-status-length-check', 'C08', ['C08.O2', 'C08.O4'], PROTO,
+  """        if !body.disconnect_requested && body.peer_connect_status.len() != self.num_players {
+            warn!(
+                "Discarding input packet with {} connection statuses; expected {}",
+                body.peer_connect_status.len(),
+                self.num_players
+            );
+            return;
+        }
+""", "", 'status vector of the wrong length is indexed')
+M('C08-drop-start-frame-check', 'C08', 'C08.O2', PROTO,
+  """        if body.start_frame < 0 {
+            warn!(
+                "Discarding input packet with invalid start frame {}",
+                body.start_frame
+            );
+            return;
+        }
+""", "", 'negative start frame accepted')
+M('C08-drop-magic-filter', 'C08', 'C08.O1', PROTO,
+  """        if self.remote_magic != 0 && msg.header.magic != self.remote_magic {
+            trace!("Received message with wrong magic; ignoring");
+            return;
+        }
+""", "", 'foreign magic accepted')
+M('C08-handshake-filter-removed', 'C08', ['C08.O1b'], PROTO,
+  """        if !is_handshake
+            && (self.state == ProtocolState::Initializing
+                || self.state == ProtocolState::Synchronizing)
+        {
+            trace!("Received non-handshake message before being synchronized; ignoring");
+            return;
+        }
+""", "", 'inverse of the D12 fix')
+M('C08-decode-unwrap', 'C08', ['C08.O4'], PROTO,
+  """            let recv_inputs = match decode(&decode_inp.bytes, &body.bytes) {
+                Ok(inputs) => inputs,
+                Err(e) => {
+                    warn!("Failed to decode input packet, discarding: {e}");
+                    return;
+                }
+            };
+""", "            let recv_inputs = decode(&decode_inp.bytes, &body.bytes).unwrap();\n", 'decode error unwrapped')
+M('C08-bitfield-rle-decode-again', ['C08', 'C14'], ['C08.O4', 'C14.O1'], COMP,
+  "    let buf = rle_decode(data)?;", "    let buf = bitfield_rle::decode(data)?;", 'inverse of the D1 fix')
+M('C08-rejection-still-stores', 'C08', 'C08.O3', PROTO,
+  """                    Err(e) => {
+                        warn!("Discarding input packet for frame {inp_frame}: {e}");
+                        return;
+                    }""",
+  """                    Err(e) => {
+                        warn!("Discarding input packet for frame {inp_frame}: {e}");
+                        self.recv_inputs.insert(inp_frame, InputBytes { frame: inp_frame, bytes: Vec::new() });
+                        return;
+                    }""", 'a rejected frame is stored anyway')
+M('C08-to-player-inputs-no-divisibility', 'C08', ['C08.O3', 'C08.O4'], PROTO,
+  """        if !self.bytes.len().is_multiple_of(num_players) {
+            return Err(format!(
+                "input byte length {} is not divisible by player count {num_players}",
+                self.bytes.len()
+            ));
+        }
+""", "", 'wrong-size frames sliced anyway')
+M('C08-unknown-address-handled', 'C08', 'C08.O1', SPEC,
+  "            if self.host.is_handling_message(from) {\n                self.host.handle_message(msg);\n            }", "            self.host.handle_message(msg);", 'spectator handles packets from any address')
+
+# ---------------------------------------------------------------- C09
+M('C09-desync-block-after-advance', 'C09', 'C09.O1', P2P,
+  """        if self.desync_detection != DesyncDetection::Off {
+            self.check_checksum_send_interval();
+            self.compare_local_checksums_against_peers();
+        }
+
+        // This list of requests will be returned to the user
+        let mut requests = Vec::new();
+""", """        // This list of requests will be returned to the user
+        let mut requests = Vec::new();
+""", 'first half of the 0.11 regression (block removed from the front)')
+M('C09-compare-le', 'C09', 'C09.O2', P2P,
+  "                        if remote_frame >= self.sync_layer.last_confirmed_frame() {", "                        if remote_frame > self.sync_layer.last_confirmed_frame() {", 'compares the confirmed frame itself')
+M('C09-report-frame-to-send', 'C09', 'C09.O3', P2P,
+  "                        let checksum_frame = cell.frame();", "                        let checksum_frame = frame_to_send;", 'reports frame_to_send with the checksum of the fallback cell')
+M('C09-event-wrong-local', 'C09', 'C09.O3', P2P,
+  "                                    local_checksum,\n                                    remote_checksum,", "                                    local_checksum: remote_checksum,\n                                    remote_checksum,", 'event carries the wrong local checksum')
+M('C09-interval-zero-accepted', ['C09', 'C16'], ['C09.O4', 'C16.O1b'], BUILDER,
+  """        if let DesyncDetection::On { interval: 0 } = self.desync_detection {
+            return Err(GgrsError::InvalidRequest {
+                info: "Desync detection interval must be higher than 0.".to_owned(),
+            });
+        }
+""", "", 'interval 0 accepted')
+
+# ---------------------------------------------------------------- C10
+M('C10-no-gossip', 'C10', 'C10.O1', PROTO,
+  "            connect_status.clone_into(&mut body.peer_connect_status);\n", "            body.peer_connect_status = vec![ConnectionStatus::default(); connect_status.len()];\n", 'status vector not copied into the packet')
+M('C10-merge-min', 'C10', 'C10.O2', PROTO,
+  "                self.peer_connect_status[i].last_frame = std::cmp::max(", "                self.peer_connect_status[i].last_frame = std::cmp::min(", 'peer view merged with min')
+M('C10-merge-and', 'C10', 'C10.O2', PROTO,
+  "                self.peer_connect_status[i].disconnected = body.peer_connect_status[i].disconnected\n                    || self.peer_connect_status[i].disconnected;",
+  "                self.peer_connect_status[i].disconnected = body.peer_connect_status[i].disconnected\n                    && self.peer_connect_status[i].disconnected;", 'disconnected merged with and')
+M('C10-adoption-after-advance', 'C10', 'C10.O3', P2P,
+  """        // propagate disconnects to multiple players
+        self.update_player_disconnects();
+
+        if lockstep {
+            self.advance_lockstep_frame(&mut requests);
+        } else {
+            self.advance_rollback_frame(&mut requests);
+        }
+""", """        if lockstep {
+            self.advance_lockstep_frame(&mut requests);
+        } else {
+            self.advance_rollback_frame(&mut requests);
+        }
+
+        // propagate disconnects to multiple players
+        self.update_player_disconnects();
+""", 'adoption after simulating')
+M('C10-adopt-only-if-connected', 'C10', 'C10.O3', P2P,
+  "                if local_connected || local_min_confirmed > queue_min_confirmed {", "                if local_connected {", 'a later local cut-off is never lowered')
+
+# ---------------------------------------------------------------- C11
+M('C11-fills-not-announced', 'C11', 'C11.O1b', P2P,
+  """                for fill_input in fills {
+                    if fill_input.frame != NULL_FRAME {
+                        self.local_connect_status[player_handle].last_frame = fill_input.frame;
+                        self.queue_outgoing_local_input(player_handle, fill_input);
+                    }
+                }
+""", "                let _ = fills;\n", '0.13 regression')
+M('C11-announce-without-insert', 'C11', 'C11.O1', IQ,
+  "            self.add_input_by_frame(input_to_replicate, expected_frame);\n            fills.push(", "            fills.push(", 'pinned-tree defect: fills reported but not inserted')
+M('C11-fill-from-old-delay', 'C11', 'C11.O2', IQ,
+  "            self.last_added_frame + 1\n        };\n\n        let mut fills", "            self.last_user_frame + 1\n        };\n\n        let mut fills", 'fill start derived from the user frame')
+M('C11-set-delay-for-remote', ['C11', 'C16'], ['C11.O3', 'C16.O2b'], P2P,
+  "            Some(PlayerType::Local) => {\n                let fills = self.sync_layer.set_frame_delay(player_handle, delay);",
+  "            Some(PlayerType::Local | PlayerType::Remote(_)) => {\n                let fills = self.sync_layer.set_frame_delay(player_handle, delay);", 'delay of a remote player changed')
+M('C11-no-flush-after-fills', 'C11', 'C11.O1b', P2P,
+  "                self.send_ready_outgoing_inputs_to_remotes();\n\n                Ok(())", "                Ok(())", 'fills queued but not flushed')
+
+# ---------------------------------------------------------------- C12
+M('C12-reply-without-nonce', 'C12', 'C12.O2', PROTO,
+  """        if !self.sync_random_requests.remove(&body.random_reply) {
+            return;
+        }
+""", "", 'any SyncReply counts')
+M('C12-nonce-not-consumed', 'C12', 'C12.O2', PROTO,
+  "        if !self.sync_random_requests.remove(&body.random_reply) {", "        if !self.sync_random_requests.contains(&body.random_reply) {", 'duplicated reply counts twice')
+M('C12-count-off-by-one', 'C12', 'C12.O2', PROTO,
+  "                count: NUM_SYNC_PACKETS - self.sync_remaining_roundtrips,", "                count: NUM_SYNC_PACKETS - self.sync_remaining_roundtrips + 1,", 'count off by one')
+M('C12-resumed-outside-running', 'C12', ['C12.O3', 'C12.O7'], PROTO,
+  "        if self.disconnect_notify_sent && self.state == ProtocolState::Running {", "        if self.disconnect_notify_sent {", 'NetworkResumed after Disconnected possible')
+M('C12-keepalive-600', 'C12', 'C12.O5', PROTO,
+  "const KEEP_ALIVE_INTERVAL: Duration = Duration::from_millis(200);", "const KEEP_ALIVE_INTERVAL: Duration = Duration::from_millis(600);", 'keep-alive slower than the notify delay')
+M('C12-skip-spectator-sync', 'C12', 'C12.O4', P2P,
+  """        for endpoint in self.player_reg.spectators.values_mut() {
+            if !endpoint.is_synchronized() {
+                return;
+            }
+        }
+
+        // everyone is synchronized, so we can change state and accept input""", "        // everyone is synchronized, so we can change state and accept input", 'Running before spectators are synchronized')
+M('C12-spectator-not-terminal', 'C12', 'C12.O7', SPEC,
+  "                self.host.disconnect();\n", "", 'inverse of the D14 fix')
+M('C12-event-without-trim', ['C12', 'C18'], ['C12.O6', 'C18.O2'], P2P,
+  "                    .expect(\"frames ahead is negative despite being positive.\"),\n            });\n            self.trim_event_queue();", "                    .expect(\"frames ahead is negative despite being positive.\"),\n            });", 'inverse of the D6 fix')
+M('C12-running-from-any-state', 'C12', 'C12.O1', PROTO,
+  "        if self.state != ProtocolState::Synchronizing {\n            return;\n        }\n        // this is not the correct reply", "        // this is not the correct reply", 'a reply completes the handshake in any state')
+M('C12-max-event-queue-200', ['C12', 'C18'], ['C12.O5', 'C12.O6', 'C18.O2'], BUILDER,
+  "pub(crate) const MAX_EVENT_QUEUE_SIZE: usize = 100;", "pub(crate) const MAX_EVENT_QUEUE_SIZE: usize = 200;", 'bound doubled')
+
+# ---------------------------------------------------------------- C13
+M('C13-builder-gt', ['C13', 'C16'], ['C13.O1', 'C16.O1c'], BUILDER, "        if self.check_dist >= self.max_prediction {", "        if self.check_dist > self.max_prediction {", 'check_distance == max_prediction accepted')
+M('C13-history-prune-gt', 'C13', 'C13.O3', SYNCT, "            .retain(|&k, _| k >= oldest_allowed_frame);", "            .retain(|&k, _| k > oldest_allowed_frame);", 'window narrower than the comparison range')
+M('C13-last-wins', 'C13', 'C13.O3', SYNCT,
+  """        if let Some(&cs) = self.checksum_history.get(&latest_cell.frame()) {
+            cs == latest_cell.checksum()
+        } else {
+            self.checksum_history
+                .insert(latest_cell.frame(), latest_cell.checksum());
+            true
+        }""",
+  """        let prev = self.checksum_history.insert(latest_cell.frame(), latest_cell.checksum());
+        match prev {
+            Some(cs) => cs == latest_cell.checksum(),
+            None => true,
+        }""", 'history keeps the latest checksum')
+M('C13-rollback-before-compare', 'C13', 'C13.O2', SYNCT,
+  """            if !mismatched_frames.is_empty() {
+                return Err(GgrsError::MismatchedChecksum {
+                    current_frame,
+                    mismatched_frames,
+                });
+            }
+
+            // simulate rollbacks according to the check_distance
+            let frame_to = self.sync_layer.current_frame() - self.check_distance as i32;
+            self.adjust_gamestate(frame_to, &mut requests);""",
+  """            // simulate rollbacks according to the check_distance
+            let frame_to = self.sync_layer.current_frame() - self.check_distance as i32;
+            self.adjust_gamestate(frame_to, &mut requests);
+            if !mismatched_frames.is_empty() {
+                return Err(GgrsError::MismatchedChecksum {
+                    current_frame,
+                    mismatched_frames,
+                });
+            }""", 'mismatch reported after requests were issued')
+M('C13-partial-inputs', 'C13', 'C13.O4', SYNCT, "        if self.num_players != self.local_inputs.len() {", "        if self.local_inputs.is_empty() {", 'advance with inputs of some players missing')
+
+# ---------------------------------------------------------------- C14
+M('C14-drop-truncated-prefix-check', ['C14', 'C08'], ['C14.O1', 'C08.O4'], COMP,
+  """        if pos + 2 > data.len() {
+            return Err("truncated length prefix".into());
+        }
+""", "", 'truncated length prefix indexed')
+M('C14-drop-truncated-data-check', ['C14', 'C08'], ['C14.O1', 'C08.O4'], COMP,
+  """        if pos + len > data.len() {
+            return Err("truncated input data".into());
+        }
+""", "", 'truncated data sliced')
+M('C14-no-cap', ['C14', 'C08'], ['C14.O3', 'C14.O1', 'C08.O4'], COMP,
+  """        if len > MAX_DECODED_LEN - output.len() {
+            return Err("decoded input data too large".into());
+        }
+""", "", 'decoded length not capped')
+M('C14-length-prefix-one-byte', 'C14', 'C14.O2', COMP,
+  "        bytes.extend_from_slice(&(input.len() as u16).to_le_bytes());", "        bytes.extend_from_slice(&(input.len() as u8).to_le_bytes());", 'writer emits a 1-byte length')
+M('C14-decode-order', 'C14', 'C14.O2', COMP,
+  "    // decode the delta-encoding\n    delta_decode(reference, &buf)", "    // decode the delta-encoding\n    delta_decode(&buf, reference)", 'reference and data swapped')
+M('C14-base-not-updated-in-decode', 'C14', 'C14.O2', COMP, "        base = decoded.clone();\n", "", 'reader keeps the reference as base')
+
+# ---------------------------------------------------------------- C15
+M('C15-interval-30', 'C15', 'C15.O1', P2P, "const RECOMMENDATION_INTERVAL: Frame = 60;", "const RECOMMENDATION_INTERVAL: Frame = 30;", 'recommendations twice as often')
+M('C15-skip-frames-constant', 'C15', 'C15.O1', P2P,
+  """                skip_frames: self
+                    .frames_ahead
+                    .try_into()
+                    .expect("frames ahead is negative despite being positive."),""", "                skip_frames: MIN_RECOMMENDATION,", 'skip_frames is a constant')
+M('C15-gate-gt', 'C15', 'C15.O1', P2P, "            && self.frames_ahead >= MIN_RECOMMENDATION as i32", "            && self.frames_ahead >= MIN_RECOMMENDATION as i32 - 1", 'recommendation at frames_ahead 2')
+M('C15-stats-swapped', 'C15', 'C15.O2', PROTO,
+  "            local_frames_behind: self.local_frame_advantage,\n            remote_frames_behind: self.remote_frame_advantage,",
+  "            local_frames_behind: self.remote_frame_advantage,\n            remote_frames_behind: self.local_frame_advantage,", 'local/remote swapped')
+M('C15-stats-before-data', 'C15', 'C15.O2', PROTO,
+  """        if seconds == 0 {
+            return Err(GgrsError::NotEnoughData);
+        }
+""", "", 'numbers before a second of data')
+M('C15-clock-diff-plain', 'C15', 'C15.O2', PROTO,
+  "        let seconds = now.saturating_sub(self.stats_start_time) / 1000;", "        let seconds = (now - self.stats_start_time) / 1000;", 'inverse of the D13 fix')
+
+# ---------------------------------------------------------------- C16
+M('C16-no-revalidation', 'C16', 'C16.O1', BUILDER,
+  """        for (&player_handle, player_type) in &self.player_reg.handles {
+            Self::validate_player_handle(player_type, player_handle, num_players)?;
+        }
+""", "", '0.13 regression')
+M('C16-spectator-handle-le', 'C16', 'C16.O1', BUILDER, "                if player_handle < num_players {", "                if player_handle <= num_players {", 'spectator handle == num_players rejected')
+M('C16-fps-zero-accepted', 'C16', 'C16.O1', BUILDER,
+  """        if fps == 0 {
+            return Err(GgrsError::InvalidRequest {
+                info: "FPS should be higher than 0.".to_owned(),
+            });
+        }
+""", "", 'fps 0 accepted (division by zero later)')
+M('C16-max-frames-behind-le', 'C16', 'C16.O1', BUILDER, "        if max_frames_behind >= SPECTATOR_BUFFER_SIZE {", "        if max_frames_behind > SPECTATOR_BUFFER_SIZE {", 'max_frames_behind == buffer size accepted')
+M('C16-duplicate-handle', 'C16', 'C16.O1', BUILDER,
+  """        if self.player_reg.handles.contains_key(&player_handle) {
+            return Err(GgrsError::InvalidRequest {
+                info: "Player handle already in use.".to_owned(),
+            });
+        }
+""", "", 'duplicate handles overwrite')
+M('C16-add-local-input-effect-first', 'C16', 'C16.O2', P2P,
+  """        if !self
+            .player_reg
+            .local_player_handles()
+            .contains(&player_handle)
+        {
+            return Err(GgrsError::InvalidRequest {
+                info: "The player handle you provided is not referring to a local player."
+                    .to_owned(),
+            });
+        }
+        let player_input = PlayerInput::<T::Input>::new(self.sync_layer.current_frame(), input);
+        self.pending_local_inputs
+            .insert(player_handle, player_input);
+        Ok(())""",
+  """        let player_input = PlayerInput::<T::Input>::new(self.sync_layer.current_frame(), input);
+        self.pending_local_inputs
+            .insert(player_handle, player_input);
+        if !self
+            .player_reg
+            .local_player_handles()
+            .contains(&player_handle)
+        {
+            return Err(GgrsError::InvalidRequest {
+                info: "The player handle you provided is not referring to a local player."
+                    .to_owned(),
+            });
+        }
+        Ok(())""", 'rejected input is stored anyway')
+
+# ---------------------------------------------------------------- C17
+M('C17-from-inputs-map-order', 'C17', 'C17.O2', PROTO,
+  """        for handle in 0..num_players {
+            if let Some(input) = inputs.get(&handle) {""", """        for (_, input) in inputs.iter() {
+            if num_players > 0 {""", 'frame bytes assembled in map order')
+M('C17-unsorted-handles', 'C17', 'C17.O2', PROTO, "        handles.sort_unstable();\n", "", 'endpoint handles in map order')
+M('C17-desync-hash-order', 'C17', 'C17.O1', P2P,
+  """                    let mut pending: Vec<(Frame, u128)> = remote
+                        .pending_checksums
+                        .iter()
+                        .map(|(&frame, &checksum)| (frame, checksum))
+                        .collect();
+                    pending.sort_unstable();
+""", """                    let pending: Vec<(Frame, u128)> = remote
+                        .pending_checksums
+                        .iter()
+                        .map(|(&frame, &checksum)| (frame, checksum))
+                        .collect();
+""", 'inverse of the D9 fix')
+
+# ---------------------------------------------------------------- C18
+M('C18-drop-recv-inputs-prune', 'C18', 'C18.O2', PROTO,
+  """            let last_recv_frame = self.last_recv_frame();
+            self.recv_inputs
+                .retain(|&k, _| k >= last_recv_frame - 2 * self.max_prediction as i32);
+""", "", 'received inputs never pruned')
+M('C18-drop-pending-output-cap', 'C18', 'C18.O2', PROTO,
+  """        if self.pending_output.len() > PENDING_OUTPUT_SIZE && !self.disconnect_event_sent {
+            self.event_queue.push_back(Event::Disconnected);
+            self.disconnect_event_sent = true;
+        }
+""", "", 'silent spectator buffered for without bound')
+M('C18-queue-without-remotes', 'C18', 'C18.O3', P2P,
+  """        if self.player_reg.remotes.is_empty() {
+            return;
+        }
+        self.outgoing_local_inputs""", "        self.outgoing_local_inputs", '0.13 regression: all-local session leaks')
+M('C18-checksum-history-unbounded', 'C18', 'C18.O2', P2P,
+  "                        if self.local_checksum_history.len() > MAX_CHECKSUM_HISTORY_SIZE {", "                        if self.local_checksum_history.len() > usize::MAX / 2 {", 'history effectively never pruned')
+M('C18-new-growth-site', 'C18', 'C18.O1', P2P,
+  "        self.frames_ahead = self.max_frame_advantage();", "        self.frames_ahead = self.max_frame_advantage();\n        self.local_checksum_history.insert(self.sync_layer.current_frame(), 0);", 'a new, unbounded growth site')
